@@ -96,11 +96,13 @@ func (e Expectation) AssertValidity(notBefore, notAfter time.Time) error {
 }
 
 func (e Expectation) AssertIssuanceTime(issuedAt time.Time) error {
-	leeway := x.IfThenElse(e.ValidityLeeway != 0, e.ValidityLeeway, defaultLeeway)
+	leeway := int64(x.IfThenElse(e.ValidityLeeway != 0, e.ValidityLeeway, defaultLeeway).Seconds())
 
 	// IssuedAt is optional but cannot be in the future. This is not required by the RFC, but
 	// if by misconfiguration it has been set to future, we don't trust it.
-	if !issuedAt.Equal(time.Time{}) && time.Now().Add(leeway).Before(issuedAt) {
+	// The comparison is done on unix seconds, as time.Time cannot represent very large values
+	// without wrapping around, which would make a time far in the future look like one in the past.
+	if !issuedAt.IsZero() && time.Now().Unix()+leeway < issuedAt.Unix() {
 		return errorchain.NewWithMessage(ErrAssertion, "issued in the future")
 	}
 
